@@ -122,10 +122,10 @@ def enumerate_states(tier):
                                        r, {"": "p", "mock": "m", "mockall": "ma", "?Send": "ms"}[o], "fon" if feature else "foff")
         states.append(dict(key=key, deps=deps, word=list(w), qual=q, ret=r, opt=o, feature=feature))
         # the same function as one of two functions of an entraited module (generic analysis is shared between the functions there)
-        if deps not in ("conc", "vconc") and (tier == "thorough" or (o in ("", "?Send") and not feature)):
+        if deps not in ("conc", "vconc") and not feature and (o in ("", "?Send") or (tier == "thorough" and len(w) <= 1)):
             states.append(dict(key=key.replace("g_", "gm_", 1), deps=deps, word=list(w), qual=q, ret=r, opt=o, feature=feature, cont="mod"))
             # .. and stamped out by macro_rules with the dependency TYPE passed as a `$d:ty` fragment (it arrives in an invisible group)
-            if deps in ("impl", "vi", "gi", "vg") and not R.get("named_a") and (tier == "thorough" or (not w and o == "" and not feature)):
+            if deps in ("impl", "vi", "gi", "vg") and not R.get("named_a") and not feature and ((tier == "thorough" and len(w) <= 1 and o == "") or (not w and o == "")):
                 states.append(dict(key=key.replace("g_", "gy_", 1), deps=deps, word=list(w), qual=q, ret=r, opt=o, feature=feature, cont="stampty"))
             # .. and next to a twin with the very same signature, generic parameter names included
             if any(EXTRA[x].get("gen") for x in w) or deps in ("gi", "gil", "gw", "gh", "vg"):
